@@ -393,7 +393,8 @@ class MasterWorld:
             self.start_master(cycle=cyc)
             return
         elif kind == 'crash':
-            self.crash_step(body[1], body[2])
+            self.crash_step(body[1], body[2],
+                            event=tuple(body[3]) if len(body) > 3 else None)
             return
         elif kind == 'reload-check':
             from mc.worlds import mastermon
@@ -416,12 +417,12 @@ class MasterWorld:
                 del self.down_since_L[name]
 
     # -- crash injection ------------------------------------------------------
-    def count_writes(self, step):
+    def count_writes(self, step, event=None):
         """Run `step` to completion and return the number of master writes."""
         self._hook(self.master_client, 'flush', '/')
         before = self.master_writes
         sid = self.master_sid
-        self.run_step(step)
+        self.run_step(step, event)
         if step == 'restart':
             # all writes of the new session belong to the step
             return sum(1 for e in self.tree.log if e[0] == self.master_sid)
@@ -429,15 +430,17 @@ class MasterWorld:
         assert sid == self.master_sid
         return self.master_writes - before
 
-    def run_step(self, step):
-        if step == 'cycle':
+    def run_step(self, step, event=None):
+        if step == 'event':
+            self.apply(event)
+        elif step == 'cycle':
             self.cycle()
         elif step == 'restart':
             self.start_master(cycle=True)
         else:
             raise AssertionError(step)
 
-    def crash_step(self, step, k):
+    def crash_step(self, step, k, event=None):
         """Cut `step` before its (k+1)-th storage write, check the stored
         state, then start a new master on it (C10)."""
         from mc.worlds import mastermon
@@ -446,6 +449,12 @@ class MasterWorld:
             self.new_master()
             self.crash_at = k
             crashed = self._crashing(self._startup_body)
+        elif step == 'event':
+            # the master dies while handling `event` (handlers + cycle)
+            self._hook(self.master_client, 'flush', '/')
+            self.crash_at = self.master_writes + k
+            CLOCK.ev -= 1       # the nested apply() takes its own event index
+            crashed = self._crashing(lambda: self.apply(event))
         else:
             self._hook(self.master_client, 'flush', '/')
             self.crash_at = self.master_writes + k
